@@ -496,7 +496,7 @@ fn canonical(tier: Tier) -> Vec<KCase> {
                 case: Case { cfg: Default::default(), salt: 8, nclients: 1, ops },
                 subsets: vec![0xA5A5_5A5A],
                 continuation: vec![Op::GetSnapshot { c: 0 }, Op::AddVersion { c: 0, parent: IdRef::Latest(0), data: d(8, 12) }],
-                max_points: tier.pick(48, 300),
+                max_points: tier.pick(48, 160),
                 point_salt: 3,
                 deep: false,
                 busy: None,
@@ -506,7 +506,7 @@ fn canonical(tier: Tier) -> Vec<KCase> {
             // a large snapshot replaced by one as large (tens of MiB each: whatever a backend does
             // to make room - free, reuse, stage - happens here at scale, and must leave the old or
             // the new one at every crash point)
-            let sz = tier.pick(25u32 << 20, 34 << 20);
+            let sz = tier.pick(25u32 << 20, 30 << 20);
             let ops = vec![
                 Op::AddVersion { c: 0, parent: IdRef::Nil, data: d(1, 30) },
                 Op::AddSnapshot { c: 0, version: IdRef::Latest(0), data: d(2, sz) },
@@ -518,7 +518,9 @@ fn canonical(tier: Tier) -> Vec<KCase> {
                 case: Case { cfg: Default::default(), salt: 8, nclients: 1, ops },
                 subsets: vec![0xA5A5_5A5A],
                 continuation: vec![Op::GetSnapshot { c: 0 }, Op::AddVersion { c: 0, parent: IdRef::Latest(0), data: d(8, 12) }],
-                max_points: tier.pick(16, 200),
+                // (each point means writing, opening and checking images of 60 MiB and more: the
+                // whole history has to stay well inside the per-case limit on a busy machine too)
+                max_points: tier.pick(16, 40),
                 point_salt: 5,
                 deep: false,
                 busy: None,
